@@ -82,15 +82,15 @@ def assignment_from(inputs, conc):
                 re, im = sp.expand(e).as_real_imag()
                 val = complex(c[idx])
                 if re.is_Symbol:
-                    asg[re] = sp.Float(val.real, 30) if False else sp.nsimplify(val.real, rational=True)
+                    asg[re] = sp.Float(val.real)
                 if im.is_Symbol:
-                    asg[im] = sp.nsimplify(val.imag, rational=True)
+                    asg[im] = sp.Float(val.imag)
         elif isinstance(v, (list, tuple)):
             for w, cw in zip(v, conc[k]):
                 if isinstance(w, SymArray):
                     asg.update(assignment_from({'x': w}, {'x': cw}))
         elif isinstance(v, sp.Symbol):
-            asg[v] = sp.nsimplify(conc[k], rational=True)
+            asg[v] = sp.Float(float(conc[k]))
     return asg
 
 
